@@ -21,13 +21,16 @@ EXPLANATION = (
     "convert_representation s->g) and state_to_graph on an ARBITRARY valid stabilizer tableau: the returned (H, P_dag, Z) "
     "gate list, applied by the independent Pauli oracle to the input generators, must land exactly in the group of the "
     "returned graph's state with + signs. np.linalg.det on symbolic 0/1 matrices is modelled by exact cofactor arithmetic, "
-    "np.linalg.inv concretises its argument by forking and then runs the real float inverse.")
+    "np.linalg.inv concretises its argument by forking and then runs the real float inverse. Of the density-matrix -> graph "
+    "route only the projection step is decided: dmf.project_and_remove (as density_to_graph calls it) on a SYMBOLIC Hermitian "
+    "rho whose all-|0> outcome has non-zero weight returns exactly that block divided by its weight (z3 reals, one division).")
 ASSUMPTIONS = ["A1 z3 sound", "A2 numpy object-array semantics", "A4 exact integer determinant stands in for the float det of small 0/1 matrices",
                "A5 networkx conversions faithful"]
-BOUNDS = {"quick": {"graph->stab": "n<=4", "stab->graph (M.[I|G])": "n<=2", "state_to_graph": "n<=2"},
-          "thorough": {"graph->stab": "n<=5", "stab->graph": "n<=3", "state_to_graph": "n<=3 (three-hour budget, ~181k paths), n=4 30 min budget"}}
+BOUNDS = {"quick": {"graph->stab": "n<=4", "stab->graph (M.[I|G])": "n<=2", "state_to_graph": "n<=2", "project_and_remove": "n<=3 every proper mask, n=4 masks keeping two qubits"},
+          "thorough": {"graph->stab": "n<=5", "stab->graph": "n<=3", "state_to_graph": "n<=3 (three-hour budget, ~181k paths), n=4 30 min budget", "project_and_remove": "n<=3 every proper mask, n=4,5 masks keeping two qubits"}}
 OUTSIDE = ("every pair involving 'dm' (graph_to_density is concrete numerics once the graph is fixed; density_to_graph needs "
-           "negativity / eigh) -- those clauses are NOT decided here; mixed states; large-n float det/inv")
+           "negativity / eigh) -- those clauses are NOT decided here, except the projection step project_and_remove for outcomes of "
+           "non-zero weight (the zero-weight fallback to the complementary projector has no specification and is not judged); mixed states; large-n float det/inv")
 
 
 class GraphToStab(NxHarness):
@@ -189,6 +192,52 @@ class StateToGraph(NxHarness):
             S.prove(f"input-row-in-returned-tableau-group[{i}]", O.member_by_enumeration(r, out))
 
 
+class ProjectAndRemove(Harness):
+    """the projection step of density_to_graph: dmf.project_and_remove(rho, mask) on a SYMBOLIC Hermitian rho whose
+    all-|0> outcome on the masked qubits has non-zero weight w must return the block <0..0|rho|0..0> divided by w
+    (the negativity computed from it afterwards goes through eigh and stays outside the claim)"""
+
+    def install(self):
+        from symnp import install as sinstall
+        sinstall.install(np_modules=["graphiq.backends.density_matrix.functions"], int_modules=[], summaries=False)
+
+    def declare(self, S):
+        from vf.common import declare_rho
+        return declare_rho(S, self.n)
+
+    def body(self, S, spec):
+        import graphiq.backends.density_matrix.functions as dmf
+        from oracle import dm as D
+        from vf.common import rho_cells
+        n, mask = self.n, list(self.mask)
+        rho = rho_cells(spec["rho"])
+        keep = [i for i in range(n) if not mask[i]]
+        k = len(keep)
+        K = 1 << k
+
+        def full(a):
+            idx = 0
+            for pos, q in enumerate(keep):
+                if (a >> (k - 1 - pos)) & 1:
+                    idx |= 1 << (n - 1 - q)
+            return idx
+
+        w = rho[full(0)][full(0)]
+        for a in range(1, K):
+            w = w + rho[full(a)][full(a)]
+        S.assume(w.real > 0)
+        got = dmf.project_and_remove(spec["rho"].copy(), mask)
+        S.prove("shape", tuple(np.shape(got)) == (K, K))
+        g = rho_cells(got)
+        for a in range(K):
+            for b in range(K):
+                # got = block / w  <=>  got * w = block   (w > 0 assumed)
+                if getattr(self, "form", "mul") == "div":
+                    S.prove(f"projected-entry[{a},{b}]", D.close(g[a][b], rho[full(a)][full(b)] / w, 1e-9))
+                else:
+                    S.prove(f"projected-entry[{a},{b}]", D.close(g[a][b] * w, rho[full(a)][full(b)], 1e-9))
+
+
 def plan(tier):
     q = tier == "quick"
     jobs = []
@@ -215,4 +264,8 @@ def plan(tier):
         h.parallel = True
         h.partial_ok = True  # ~181k paths (= every 3-qubit generator matrix); complete in ~1.5 h on an idle 16-core machine
         jobs.append((h, {"time_budget": 3 * 3600, "chunk_paths": 64}))
+    for n in ([2, 3, 4] if q else [2, 3, 4, 5]):
+        for mask in itertools.product((0, 1), repeat=n):
+            if 0 < sum(mask) < n and (n - sum(mask) == 2 or n <= 3):
+                jobs.append((ProjectAndRemove(n=n, mask=list(mask), form='div'), {}))
     return jobs
